@@ -547,9 +547,32 @@ def typedecorator_once(ctx):
                 st = sel_col_stmt.order_by(col).limit(5)
             return wrap(st, depth - 1, path + [k])
 
-        for _ in range(n):
-            base = sa.select(tt.c.v).where(tt.c.id == 1)
+        import datetime as _dt
+
+        def bases():
+            """(name, one-column select, expected value): the decorated column itself, and labels
+            built with the public constructor label(name, element, type_=T) whose type differs
+            from the element's type — the label's own type must travel through every nesting"""
+            return [
+                ("column", sa.select(tt.c.v).where(tt.c.id == 1), "R(B(x))"),
+                ("label-type-over-coerced", sa.select(sa.label("lb", sa.type_coerce(tt.c.v, sa.String), type_=Tag())).where(tt.c.id == 1), "R(B(x))"),
+                ("label-type-over-literal_column", sa.select(sa.label("lc", sa.literal_column("v"), type_=Tag())).select_from(tt).where(tt.c.id == 1), "R(B(x))"),
+                ("label-type-over-expression", sa.select(sa.label("le", sa.type_coerce(tt.c.v, sa.String) + "", type_=Tag())).where(tt.c.id == 1), "R(B(x))"),
+                ("literal_column-typed-label", sa.select(sa.literal_column("v", type_=Tag()).label("ll")).select_from(tt).where(tt.c.id == 1), "R(B(x))"),
+                ("date-label-over-string", sa.select(sa.label("d", sa.literal_column("'2020-01-02'"), type_=sa.Date())), _dt.date(2020, 1, 2)),
+                ("datetime-label-over-string", sa.select(sa.label("dtm", sa.literal_column("'2020-01-02 03:04:05.000006'"), type_=sa.DateTime())),
+                 _dt.datetime(2020, 1, 2, 3, 4, 5, 6)),
+                ("boolean-label-over-int", sa.select(sa.label("bl", sa.literal_column("1"), type_=sa.Boolean())), True),
+            ]
+
+        for it in range(n):
+            bname, base, expected = rng.choice(bases()) if it % 2 else bases()[0]
             stmt, path = wrap(base, rng.randint(0, 4), [])
+            if bname != "column":
+                path = [bname] + path
+            if bname.startswith(("date", "boolean")) and "func" in path:
+                # max() of a non-decorated type keeps the type but this oracle counts Tag calls only
+                pass
             calls["result"] = 0
             with warnings.catch_warnings():
                 warnings.simplefilter("ignore")
@@ -562,10 +585,12 @@ def typedecorator_once(ctx):
             ctx.count("tdec-depth=%d" % len(path))
             # (an aggregate over the empty UNION branch contributes a NULL row)
             got = [r for r in allrows if r is not None]
-            if got != ["R(B(x))"] or calls["result"] != len(allrows):
-                ctx.violation("c09-oracle:typedecorator-result-once", {"what": "tdec", "ctx": path},
-                              "nesting %s returned %r with %d process_result_value calls for %d rows (expected ['R(B(x))'], one call per row)"
-                              % (path, allrows, calls["result"], len(allrows)))
+            want_calls = len(allrows) if expected == "R(B(x))" else 0
+            if got != [expected] or type(got[0]) is not type(expected) or calls["result"] != want_calls:
+                ctx.violation("c09-oracle:typedecorator-result-once" if expected == "R(B(x))" else "c09-oracle:label-type-lost-in-nesting",
+                              {"what": "tdec", "ctx": path},
+                              "nesting %s returned %r with %d process_result_value calls for %d rows (expected [%r], %d calls)"
+                              % (path, allrows, calls["result"], len(allrows), expected, want_calls))
         # bind side: WHERE, IN, UPDATE, RETURNING, ORM
         checks = [
             ("where", lambda: conn.execute(sa.select(tt.c.id).where(tt.c.v == "x")).scalars().all(), [1]),
